@@ -59,6 +59,7 @@ type NodeCfg struct {
 	MirrorPort  int            `json:"mirror_port,omitempty"`
 	MirrorWorkers int          `json:"mirror_workers,omitempty"`
 	SFlowFilter []uint32       `json:"sflow_filter,omitempty"`
+	FilterViaFile bool         `json:"filter_via_file,omitempty"` // the filter is given in vflow.conf instead of on the command line
 	ExtElements bool           `json:"ext_elements"`     // install ipfix.elements incl. the enterprise section
 	ShippedElements bool       `json:"shipped_elements"` // install scripts/ipfix.elements verbatim
 	Verbose    bool            `json:"verbose,omitempty"`
@@ -159,7 +160,7 @@ func bootArgs(c *NodeCfg) []string {
 		add("sflow-mirror-port", c.MirrorPort+1)
 		add("sflow-mirror-workers", c.MirrorWorkers)
 	}
-	if len(c.SFlowFilter) > 0 {
+	if len(c.SFlowFilter) > 0 && !c.FilterViaFile {
 		var s []string
 		for _, f := range c.SFlowFilter {
 			s = append(s, strconv.FormatUint(uint64(f), 10))
@@ -190,6 +191,12 @@ func installFiles(s *simrt.Sim, c *NodeCfg) {
 	}
 	if c.ConfFile != "" {
 		s.FS.Put(confDir+"/vflow.conf", []byte(c.ConfFile))
+	} else if len(c.SFlowFilter) > 0 && c.FilterViaFile {
+		var l []string
+		for _, f := range c.SFlowFilter {
+			l = append(l, strconv.FormatUint(uint64(f), 10))
+		}
+		s.FS.Put(confDir+"/vflow.conf", []byte("sflow-type-filter: ["+strings.Join(l, ", ")+"]\n"))
 	}
 	if c.IPFIXCache != "" {
 		s.FS.Put(ipfixCachePath, []byte(c.IPFIXCache))
